@@ -114,6 +114,13 @@ Expected(c) ==
     [] c = "neg-max-on-empty"  -> <<"panic", "panic", "panic">>                  \* Add(-MaxInt32) on an empty caster underflows
     \* Add(2); Send in flight; receive; Add(-3) (unbalanced, during the Send); receive; then Add(0); Send:
     \* the Add, the Send in flight and every later call report it
+    [] c = "pos-2pow32"        -> <<"panic", "ok", "ok">>                        \* out of range whatever the low 32 bits are
+    [] c = "pos-2pow32-plus"   -> <<"panic", "ok", "ok">>
+    [] c = "neg-2pow32"        -> <<"panic", "ok", "ok">>
+    \* an unbalanced deregistration is reported, and so is the registration that covers the deficit (the count would wrap
+    \* back into range unnoticed otherwise); arithmetically the state is then valid again (see DESIGN.md, observations):
+    [] c = "deficit-covered"   -> <<"panic", "panic", "ok", "ok">>              \* Add(-1); Add(1); Add(0); Send (nobody registered)
+    [] c = "deficit-overcovered" -> <<"panic", "panic", "ok", "hang">>          \* Add(-3); Add(5); Add(0); Send waits for 2 receivers
     [] c = "unbalanced-during-send" -> <<"panic", "panic", "panic", "panic">>
 
 TMisuse ==
